@@ -185,9 +185,13 @@ def build_spec(seed: int, prop: str, tier: str) -> dict:
         n_calls = r.randint(5, 40 if tier == "thorough" else 24)
         made = 0
         while made < n_calls and usable:
-            if r.random() < 0.5:
+            x = r.random()
+            if x < 0.44:
                 n = 1
                 mode = "sync"
+            elif x < 0.56:
+                n = r.randint(2, 4)
+                mode = "threads"  # blocking calls from several caller threads sharing the client object
             else:
                 n = r.randint(1, 5)
                 mode = "async"
@@ -203,9 +207,15 @@ def build_spec(seed: int, prop: str, tier: str) -> dict:
                 calls.append(call)
             if not calls:
                 continue
-            if mode == "sync" and calls[0]["server"].get("fault") == "cancel":
-                calls[0]["server"]["fault"] = None
-            groups.append({"mode": mode, "calls": calls})
+            if mode in ("sync", "threads"):
+                for call in calls:
+                    if call["server"].get("fault") == "cancel":
+                        call["server"]["fault"] = None
+            g: dict = {"mode": mode, "calls": calls}
+            if mode == "threads":
+                g["sched_seed"] = r.getrandbits(32)
+                g["switch_p"] = r.choice([0.02, 0.05, 0.1, 0.25, 0.5])
+            groups.append(g)
             # twin: the same call again in the other flavour (sync <-> asyncio) and/or the other variant
             if r.random() < 0.35:
                 src = r.choice(calls)
@@ -216,7 +226,7 @@ def build_spec(seed: int, prop: str, tier: str) -> dict:
                 if twin["server"].get("fault") == "cancel":
                     twin["server"]["fault"] = None
                     src["server"]["fault"] = None
-                groups.append({"mode": "async" if mode == "sync" else "sync", "calls": [twin]})
+                groups.append({"mode": "sync" if mode == "async" else "async", "calls": [twin]})
                 made += 1
             # multi-step client history: derive a new client object through the generated builder methods
             if r.random() < 0.1 and not client["context_manager"]:
@@ -272,6 +282,8 @@ class Pkg:
                 self.index.setdefault(ep.name, {"tag": str(tag), "module": str(utils.PythonIdentifier(ep.name, config.field_prefix)), "names": names,
                                                 "bodies": [str(b.content_type) for b in ep.bodies], "has_diagnostics": bool(ep.errors)})
         self.root = genrun.import_package(parent, PKG)
+        self.parent = parent
+        self.pkg_dir = os.path.join(os.path.realpath(parent), PKG) + os.sep
         import importlib
 
         self.client_mod = importlib.import_module(f"{PKG}.client")
@@ -478,6 +490,38 @@ class World:
         self.log.append(f"group async ids={[p['id'] for p in preps]} completion={order} vtime={lp.time():.4f}")
         return out
 
+    def run_group_threads(self, preps: list[dict], client: Any, g: dict) -> list[dict]:
+        """Blocking calls issued by several caller threads that share `client`; the interleaving (which thread executes
+        the next statement of the generated package, and whose request reaches the server first) is drawn from the
+        group's schedule seed by sim.threads.ThreadSched."""
+        from sim import genrun
+        from sim import threads as simthreads
+
+        if not getattr(self, "_all_imported", False):
+            genrun.import_all_modules(self.pkg.parent, PKG)  # no thread may meet an import lock while holding the baton
+            self._all_imported = True
+        sched = simthreads.ThreadSched(rng.stream(int(g.get("sched_seed") or 0), "threads"), (self.pkg.pkg_dir,), float(g.get("switch_p") or 0.1))
+        self.apiserver.THREAD_SCHED = sched
+        try:
+            out = sched.run([lambda p=p: self.run_sync(p, client) for p in preps])
+        finally:
+            self.apiserver.THREAD_SCHED = None
+        ids = [p["id"] for p in preps]
+        finish = [ids[t] for t in sched.finish_order]
+        n_sw = len(sched.switches)
+        self.probe("thread-groups")
+        self.probe("thread-switches", n_sw)
+        if n_sw:
+            self.probe("thread-group-interleaved")
+        for _step, _a, _b, where in sched.switches:
+            fn = where.split(":", 1)[0]
+            if fn in ("_get_kwargs", "get_httpx_client", "_parse_response", "_build_response", "from_dict", "to_dict", "wire"):
+                self.probe(f"thread-switch-inside:{fn}")
+        self.states.add(f"tsched|{len(ids)}|{','.join(str(t) for t in sched.finish_order)}|{min(n_sw, 6)}")
+        sw = hashlib.sha256(repr(sched.switches).encode()).hexdigest()[:12]
+        self.log.append(f"group threads ids={ids} finish={finish} steps={sched.steps} switches={n_sw} schedule={sw}")
+        return [x if isinstance(x, dict) else {"exc": RuntimeError(f"thread returned {x!r}")} for x in out]
+
     # ------------------------------------------------------------------ oracles
     def judge_call(self, prep: dict, res: dict, client_spec: dict) -> dict:
         """Returns the normalised observation used for twin comparison."""
@@ -519,7 +563,7 @@ class World:
         if client_spec["kind"] == "auth":
             allowed.add(client_spec["auth_header_name"].lower())
         for kind, detail in rm.check_request(exp, req, self.doc, allowed):
-            self.v("C03", kind, self._locus_for(kind, detail, prep), f"{prep['opid']} {op['method'].upper()} {op['path']} ({prep['variant']}/{'async' if prep.get('async') else 'sync'}): {detail}")
+            self.v("C03", kind, self._locus_for(kind, detail, prep), f"{prep['opid']} {op['method'].upper()} {op['path']} ({prep['variant']}/{prep.get('mode') or ('async' if prep.get('async') else 'sync')}): {detail}")
         # client defaults and credentials
         for k, val in client_spec["headers"].items():
             if req["headers"].get(k.lower()) != val:
@@ -764,6 +808,7 @@ class World:
                         p = self.prepare(call, si)
                         if p is not None:
                             p["async"] = g["mode"] == "async"
+                            p["mode"] = g["mode"]
                             p["pos"] = call.get("cid", (gi, ci))
                             self.server.plan(p["id"], self.behaviour(p))
                             preps.append(p)
@@ -771,6 +816,8 @@ class World:
                         continue
                     if g["mode"] == "sync":
                         results = [self.run_sync(p, client) for p in preps]
+                    elif g["mode"] == "threads":
+                        results = self.run_group_threads(preps, client, g)
                     else:
                         results = self.run_group_async(preps, client)
                     for p, res in zip(preps, results):
